@@ -42,13 +42,25 @@ def pair_lines(rng, typ, n, nf, form, kind):
         if typ in ('T16', 'U16'):
             return None
         A.solt()
-        # same standards, abbreviated matrices (leakage types keep one full matrix per port through MATCH)
+        leak = typ in ('TE10', 'UE10', 'UE14', 'E12')
+        # leakage types need every off-diagonal cell measured without a signal path: either one full matrix per port (the match), or
+        # - everything abbreviated - a double reflect per pair of ports, whose 2x2 matrix holds the two cells of that pair
+        by_pairs = leak and n >= 2 and rng.random() < 0.6
+        if by_pairs:
+            pairs_ = [(i, j, rng.choice([calsim.SHORT, calsim.OPEN]), rng.choice([calsim.OPEN, calsim.MATCH])) for i in range(1, n + 1) for j in range(i + 1, n + 1)]
+            for (i, j, c1, c2) in pairs_:
+                A.add_double_reflect(i, j, c1, c2)
+        # same standards, abbreviated matrices
         for port in range(1, n + 1):
             for code in (calsim.SHORT, calsim.OPEN, calsim.MATCH):
                 ab = 'both'
-                if code == calsim.MATCH and typ in ('TE10', 'UE10', 'UE14', 'E12'):
+                if code == calsim.MATCH and leak and not by_pairs:
                     ab = 'full'
                 B.add_reflect(port, code, abbreviated=ab)
+        if by_pairs:
+            for (i, j, c1, c2) in pairs_:
+                modes = [m for m in ('both',) if B.abbrev_sel([i, j], m) is not None]
+                B.add_double_reflect(i, j, c1, c2, abbreviated=modes[0] if modes else 'full')
         for i in range(1, n + 1):
             for j in range(i + 1, n + 1):
                 # either port order, abbreviated in rows, columns or both (whatever the type's shape rules accept)
